@@ -25,7 +25,53 @@ def _samples(rng, families):
             out.append(dict(f="lmul", x=x, y=y))
         out.append(dict(f="lmul", x=[0x8000, 0, 0, 0, 0, 0, 0, 0], y=[r16() for _ in range(8)]))
         out.append(dict(f="lmul", x=[0, 0, 0, 0, 0, 0, 0, 1], y=[0, 0, 0, 0, 0, 0, 0, 1]))
+    if "big" in families:
+        vals = [0, 1, 2, SM2N - 1, SM2N, SM2N + 1, SM2P - 1, SM2P, (1 << 256) - 1, 1 << 255, (1 << 128) - 1]
+        for i in range(3):       # full size: the pure binary long division costs ~2.5 s per Mod
+            a = rng.choice(vals) if i < 1 else rng.getrandbits(256)
+            b = rng.choice(vals) if i < 1 else rng.getrandbits(256)
+            out.append(dict(f="bn2", a=nb(a, rng.choice([0, 32, 33])), b=nb(b, rng.choice([0, 32])),
+                            m=nb(rng.choice([SM2N, SM2P]))))
+        small = [0, 1, 255, 256, 65535, 65536, (1 << 64) - 1, 1 << 64]
+        for i in range(16):
+            a = rng.choice(small) if i < 6 else rng.getrandbits(rng.choice([8, 16, 63, 64, 72]))
+            b = rng.choice(small) if i < 4 else rng.getrandbits(rng.choice([8, 17, 64]))
+            m = rng.getrandbits(rng.choice([8, 16, 40, 64])) | 1
+            out.append(dict(f="bn2", a=nb(a, rng.choice([0, 9])), b=nb(b), m=nb(m)))
+        for m in (251, 65521, 37):
+            for _ in range(2):
+                out.append(dict(f="bnexp", a=nb(rng.randrange(0, 70000)), e=nb(rng.randrange(0, 70000)), m=nb(m)))
+            out.append(dict(f="bnexp", a=nb(0), e=nb(5), m=nb(m)))
     return out
+
+
+SM2P = 0xFFFFFFFEFFFFFFFFFFFFFFFFFFFFFFFFFFFFFFFF00000000FFFFFFFFFFFFFFFF
+SM2N = 0xFFFFFFFEFFFFFFFFFFFFFFFFFFFFFFFF7203DF6B21C6052B53BBF40939D54123
+SM2B = 0x28E9FA9E9D9F5E344D5A9E4BCF6509A7F39789F515AB8F92DDBCBD414D940E93
+SM2GX = 0x32C4AE2C1F1981195F9904466A39C9948FE30BBFF2660BE1715A4589334C74C7
+SM2GY = 0xBC3736A2F4F6779C59BDCEE36B692153D0A9877CC62A474002DF32E52139F0A0
+
+
+def nb(v, width=0):
+    """big-endian byte list; width 0 = minimal, else left-padded"""
+    n = max((v.bit_length() + 7) // 8, width)
+    return list(v.to_bytes(n, "big")) if n else []
+
+
+def _samples_l2(rng):
+    """level 2: (a) toy curve in the BigNat carrier, pure vs full; (b) SM2 curve, L1 vs full;
+    (c) inverse property at 256 bits (accelerated only)."""
+    toy, big, prop = [], [], []
+    for k in (0, 1, 2, 36, 37, 38, 63):
+        toy.append(dict(f="ecmul", p=nb(43), a=nb(40), b=nb(10), k=nb(k), pt=[nb(6), nb(6)], nbits=7))
+    g = [nb(SM2GX), nb(SM2GY)]
+    for k in (1, 2, SM2N - 1, SM2N, rng.getrandbits(256), rng.getrandbits(256)):
+        big.append(dict(f="ecmul", p=nb(SM2P), a=nb(SM2P - 3), b=nb(SM2B), k=nb(k), pt=g, nbits=256))
+    big.append(dict(f="ecmul", p=nb(SM2P), a=nb(SM2P - 3), b=nb(SM2B), k=nb(5), pt=[], nbits=256))
+    for m in (SM2N, SM2P):
+        for a in (1, 2, m - 1, rng.getrandbits(255), rng.getrandbits(256)):
+            prop.append(dict(f="bninvok", a=nb(a), m=nb(m)))
+    return toy, big, prop
 
 
 def _run(rd, samples, accel, tag):
@@ -36,7 +82,7 @@ def _run(rd, samples, accel, tag):
         for s in samples:
             f.write(json.dumps(s) + "\n")
     md = os.path.join(rd, "md_accel_" + tag)
-    cmd = core._java_cmd(accel, "2g") + ["-metadir", md, "-workers", "1", "-nowarning", "-config", "T_Accel.cfg",
+    cmd = core._java_cmd(bool(accel), "2g", level=(accel if isinstance(accel, str) else "full")) + ["-metadir", md, "-workers", "1", "-nowarning", "-config", "T_Accel.cfg",
                                          "T_Accel.tla"]
     e = dict(os.environ, VERIF_TRACE=tf, VERIF_OUT=of)
     e.pop("JAVA_TOOL_OPTIONS", None)
@@ -51,19 +97,47 @@ def selftest(chk, families=("bits",)):
         return _done[key]
     rng = random.Random(core.seed() * 7919 + 17)
     samples = _samples(rng, families)
-    p1, o1, m1 = _run(chk.rd, samples, False, "pure")
-    p2, o2, m2 = _run(chk.rd, samples, True, "java")
-    outs = []
-    for p, o, m in ((p1, o1, m1), (p2, o2, m2)):
-        out, _ = p.communicate(timeout=900)
-        shutil.rmtree(m, ignore_errors=True)
-        if p.returncode != 0 or not os.path.exists(o):
-            raise core.Infra("accelerator self-test run failed:\n" + core._tail(out))
-        outs.append(json.load(open(o)))
-    if outs[0]["n"] != len(samples) or outs[0] != outs[1]:
-        bad = [i for i, (a, b) in enumerate(zip(outs[0]["res"], outs[1]["res"])) if a != b]
-        raise core.Infra("accelerator disagrees with its TLA+ definition on samples %s" % bad[:5])
-    _done[key] = len(samples)
-    chk.notes.append("accelerator self-test: %d samples, pure TLA+ = Java override" % len(samples))
-    chk.extra["accelerator_selftest_samples"] = len(samples)
-    return len(samples)
+    heavy = [s for s in samples if s["f"] == "bn2" and len(s["m"]) >= 32]
+    light = [s for s in samples if not (s["f"] == "bn2" and len(s["m"]) >= 32)]
+    parts = [light] + [[h] for h in heavy]
+    procs = []
+    for i, part in enumerate(parts):
+        if part:
+            procs.append((_run(chk.rd, part, False, "pure%d" % i), _run(chk.rd, part, True, "java%d" % i), part))
+    for (pp, jp, part) in procs:
+        outs = []
+        for p, o, m in (pp, jp):
+            out, _ = p.communicate(timeout=900)
+            shutil.rmtree(m, ignore_errors=True)
+            if p.returncode != 0 or not os.path.exists(o):
+                raise core.Infra("accelerator self-test run failed:\n" + core._tail(out))
+            outs.append(json.load(open(o)))
+        if outs[0]["n"] != len(part) or outs[0] != outs[1]:
+            raise core.Infra("accelerator disagrees with its TLA+ definition on a sample of kind %s" % part[0]["f"])
+    n2 = 0
+    if "big" in families:
+        toy, big, prop = _samples_l2(rng)
+        runs = [(toy, False, "toy_pure"), (toy, "full", "toy_full"), (big, "L1", "big_l1"), (big, "full", "big_full"),
+                (prop, "full", "prop")]
+        ps = [(_run(chk.rd, smp, acc, tag), smp) for smp, acc, tag in runs]
+        res = []
+        for (p, o, m), smp in ps:
+            out, _ = p.communicate(timeout=900)
+            shutil.rmtree(m, ignore_errors=True)
+            if p.returncode != 0 or not os.path.exists(o):
+                raise core.Infra("accelerator self-test (level 2) failed:\n" + core._tail(out))
+            r = json.load(open(o))
+            if r["n"] != len(smp):
+                raise core.Infra("accelerator self-test (level 2) incomplete")
+            res.append(r["res"])
+        if res[0] != res[1]:
+            raise core.Infra("EC accelerator disagrees with the pure TLA+ double-and-add on the toy curve")
+        if res[2] != res[3]:
+            raise core.Infra("EC accelerator disagrees with the TLA+ double-and-add (BigNat level-1) on the SM2 curve")
+        if any(x != [1] for x in res[4]):
+            raise core.Infra("ModInv accelerator: a * ModInv(a) # 1")
+        n2 = len(toy) + len(big) + len(prop)
+    _done[key] = len(samples) + n2
+    chk.notes.append("accelerator self-test: %d samples, pure TLA+ = Java override" % _done[key])
+    chk.extra["accelerator_selftest_samples"] = _done[key]
+    return _done[key]
